@@ -225,7 +225,7 @@ func pickTs(r *gen.Rand, d int64, k0, span int64, n int) []int64 {
 	return out
 }
 
-func generate(r *gen.Rand, tier string, big bool) *gcase {
+func generate(r *gen.Rand, tier string, big, huge bool) *gcase {
 	g := &gcase{}
 	dc := gen.Pick(r, durChoices)
 	g.maxDur, g.maxDurMs = dc.flag, dc.ms
@@ -237,7 +237,18 @@ func generate(r *gen.Rand, tier string, big bool) *gcase {
 		nser = 200 + r.Intn(600)
 		perSer = 1 + r.Intn(4)
 	}
+	if huge {
+		// more than maxSamplesInAppender (5000) samples in one block: several appender batches.
+		// Only ordered layouts (the model has one Commit per block; for ordered inputs the
+		// batching cannot be observed), distinct label sets by construction.
+		nser = 2600 + r.Intn(900)
+	}
 	g.series = genSeries(r, nser)
+	if huge {
+		for i := range g.series {
+			g.series[i] = fmt.Sprintf(`h%d{job="x"}`, i)
+		}
+	}
 	k0 := r.Range(-4, 2)
 	if r.Chance(1, 5) {
 		k0 = r.Range(-400, 300)
@@ -252,7 +263,9 @@ func generate(r *gen.Rand, tier string, big bool) *gcase {
 		span = r.Range(1, 5)
 	}
 	sparse := false
-	if r.Chance(1, 8) {
+	if huge {
+		span = 1
+	} else if r.Chance(1, 8) {
 		span = r.Range(6, 14) // gaps of several empty block ranges (nextSampleTs skip)
 		sparse = true
 	}
@@ -266,6 +279,9 @@ func generate(r *gen.Rand, tier string, big bool) *gcase {
 		if sparse && !big {
 			n = 1
 		}
+		if huge {
+			n = 2
+		}
 		var l []pt
 		for _, t := range pickTs(r, d, k0, span, n) {
 			l = append(l, pt{s, t})
@@ -275,6 +291,9 @@ func generate(r *gen.Rand, tier string, big bool) *gcase {
 	// layout
 	var order []pt
 	layout := r.Intn(10)
+	if huge {
+		layout = []int{0, 1, 2, 3, 4, 5, 6, 8}[r.Intn(8)]
+	}
 	switch {
 	case layout <= 2: // grouped per series (valid OpenMetrics)
 		g.gen = "grouped"
@@ -369,7 +388,7 @@ func generate(r *gen.Rand, tier string, big bool) *gcase {
 		g.lines = append(g.lines, line{ser: p.ser, ms: p.ms, val: v, tsFm: m})
 	}
 	// conflicting duplicate (same series and timestamp, other value)
-	if r.Chance(1, 12) && len(g.lines) > 0 {
+	if !huge && r.Chance(1, 12) && len(g.lines) > 0 {
 		i := r.Intn(len(g.lines))
 		if g.lines[i].ser >= 0 {
 			dup := g.lines[i]
@@ -418,7 +437,7 @@ func generate(r *gen.Rand, tier string, big bool) *gcase {
 	// custom labels
 	if r.Chance(1, 6) {
 		g.custom = map[string]string{"extra": gen.Pick(r, []string{"v", "", "a b"})}
-		if r.Chance(1, 3) {
+		if !huge && r.Chance(1, 3) {
 			g.custom[gen.Pick(r, labelNames)] = "forced" // may merge series
 		}
 	}
@@ -745,9 +764,13 @@ func main() {
 	cases = append(cases, corpus()...)
 	n := f.Count(24, 600)
 	nbig := f.Count(1, 8)
+	nhuge := f.Count(0, 2)
+	if v, err := strconv.Atoi(os.Getenv("VERIF_C50_HUGE")); err == nil { // development aid
+		nhuge = v
+	}
 	for i := 0; i < n; i++ {
 		r := gen.Fork(f.Seed, i)
-		cases = append(cases, generate(r, f.Tier, i >= n-nbig))
+		cases = append(cases, generate(r, f.Tier, i >= n-nbig-nhuge && i < n-nhuge, i >= n-nhuge))
 	}
 
 	type result struct {
@@ -845,6 +868,9 @@ func main() {
 			if neg {
 				meta.Hit("negative-timestamps")
 			}
+		}
+		if nsamp > 5000 {
+			meta.Hit("more-than-5000-samples")
 		}
 		if g.maxDur != "" {
 			meta.Hit("max-block-duration-flag")
